@@ -516,6 +516,13 @@ def make_worker(ctx, det_n):
                     res['crashes'].append((rules_key(rules), '; '.join(probs)[:2500], rules))
                     w.start(rules)
                     since = 1
+                if bad:
+                    # the confirmation instance uses this shard's port block: take the sweep instance down first
+                    res['kicks'] += w.sq.kicks
+                    res['starts'] += w.starts
+                    res['reconfigs'] += w.reconfigs
+                    w.stop()
+                    w = CWorld(ctx, shard)
                 for req, text in bad[:2]:
                     v2, ob2, probs2 = confirm(ctx, shard, rules, req)
                     res['starts'] += 1
